@@ -1,0 +1,200 @@
+//go:build verif
+
+package gojq
+
+import (
+	"fmt"
+	"sync/atomic"
+)
+
+// Verification hooks, compiled only with the verif build tag. They add
+// observability (read-only accessors) and switches that make the compiler
+// take its generic code path instead of an optimized one. Nothing here
+// changes behaviour unless a switch is set with VerifSetOff.
+
+const (
+	verifOptConstObject = iota
+	verifOptConstArray
+	verifOptConstUnary
+	verifOptIndexKey
+	verifOptAssignPath
+	verifOptInlineIdentity
+	verifOptInlineOneInstr
+	verifOptIfConst
+	verifOptExpRemove
+	verifOptTailRec
+	verifOptCodeOps
+	verifOptInPlace
+	verifOptCount
+)
+
+// VerifOptNames lists the switch names, indexed by bit position.
+var VerifOptNames = [verifOptCount]string{
+	"const-object", "const-array", "const-unary", "index-key", "assign-path",
+	"inline-identity", "inline-one-instr", "if-const", "exp-remove",
+	"tail-rec", "code-ops", "in-place",
+}
+
+var verifSwitches atomic.Uint32
+
+// VerifSetOff disables the optimizations whose bits are set in mask and
+// returns the previous mask.
+func VerifSetOff(mask uint32) uint32 { return verifSwitches.Swap(mask) }
+
+func verifOff(opt int) bool { return verifSwitches.Load()&(1<<opt) != 0 }
+
+func (c *compiler) verifNoInline(n int) bool {
+	return n == 2 && verifOff(verifOptInlineIdentity) ||
+		n == 3 && verifOff(verifOptInlineOneInstr)
+}
+
+// generic lowering of a unary expression (no literal folding)
+func (c *compiler) verifCompileUnary(e *Unary) error {
+	if err := c.compileTerm(e.Term); err != nil {
+		return err
+	}
+	switch e.Op {
+	case OpAdd:
+		return c.compileCall("_plus", nil)
+	case OpSub:
+		return c.compileCall("_negate", nil)
+	default:
+		return fmt.Errorf("unexpected operator in Unary: %s", e.Op)
+	}
+}
+
+// generic lowering of an index expression (no opindex with constant key)
+func (c *compiler) verifCompileIndex(e *Term, x *Index) error {
+	null := &Query{Term: &Term{Type: TermTypeNull}}
+	switch {
+	case x.Name != "":
+		return c.compileCall("_index", []*Query{{Term: e}, {Term: &Term{Type: TermTypeString, Str: &String{Str: x.Name}}}})
+	case x.Str != nil:
+		return c.compileCall("_index", []*Query{{Term: e}, {Term: &Term{Type: TermTypeString, Str: x.Str}}})
+	case !x.IsSlice:
+		return c.compileCall("_index", []*Query{{Term: e}, x.Start})
+	case x.Start == nil:
+		return c.compileCall("_slice", []*Query{{Term: e}, x.End, null})
+	case x.End == nil:
+		return c.compileCall("_slice", []*Query{{Term: e}, null, x.Start})
+	default:
+		return c.compileCall("_slice", []*Query{{Term: e}, x.End, x.Start})
+	}
+}
+
+type verifLexState struct {
+	record bool
+	points []int
+}
+
+func (l *lexer) verifPoint() {
+	if l.verif.record && !l.inString {
+		l.verif.points = append(l.verif.points, l.offset)
+	}
+}
+
+// VerifLexPoints parses src and reports the byte offsets at which the lexer
+// was asked for the next token outside a string literal, i.e. the offsets
+// where it skips white space and comments.
+func VerifLexPoints(src string) ([]int, error) {
+	l := newLexer(src)
+	l.verif.record = true
+	if yyParse(l) > 0 {
+		return l.verif.points, l.err
+	}
+	return l.verif.points, nil
+}
+
+// VerifInstr is one instruction of a compiled query.
+type VerifInstr struct {
+	Op string
+	V  any
+}
+
+// VerifInstrs returns the instructions of the code.
+func VerifInstrs(c *Code) []VerifInstr {
+	xs := make([]VerifInstr, len(c.codes))
+	for i, code := range c.codes {
+		if code == nil {
+			xs[i] = VerifInstr{Op: "<nil>"}
+			continue
+		}
+		op := "<invalid>"
+		if opnop <= code.op && code.op <= oppathend {
+			op = code.op.String()
+		}
+		xs[i] = VerifInstr{Op: op, V: code.v}
+	}
+	return xs
+}
+
+// VerifFootprint reports the sizes of the interpreter state retained by a
+// running iterator: data stack, path stack, scope stack, register file,
+// fork stack (the first four are high-water marks of their backing arrays).
+func VerifFootprint(iter Iter) ([5]int, bool) {
+	env, ok := iter.(*env)
+	if !ok {
+		return [5]int{}, false
+	}
+	return [5]int{
+		len(env.stack.data), len(env.paths.data), len(env.scopes.data),
+		len(env.values), cap(env.forks),
+	}, true
+}
+
+// VerifBuiltinFuncDefs returns the precompiled builtin definitions.
+func VerifBuiltinFuncDefs() map[string][]*FuncDef { return builtinFuncDefs }
+
+// VerifInternalFuncs lists the native function names with their arity masks.
+func VerifInternalFuncs() map[string]int {
+	m := make(map[string]int, len(internalFuncs))
+	for name, fn := range internalFuncs {
+		m[name] = fn.argcount
+	}
+	return m
+}
+
+// VerifStack exposes the persistent value stack.
+type VerifStack struct{ s *stack }
+
+// VerifNewStack creates a stack.
+func VerifNewStack() VerifStack { return VerifStack{newStack()} }
+
+// Push pushes a value.
+func (s VerifStack) Push(v any) { s.s.push(v) }
+
+// Pop pops a value.
+func (s VerifStack) Pop() any { return s.s.pop() }
+
+// Top returns the top value.
+func (s VerifStack) Top() any { return s.s.top() }
+
+// Empty reports emptiness.
+func (s VerifStack) Empty() bool { return s.s.empty() }
+
+// Save saves the stack state.
+func (s VerifStack) Save() (int, int) { return s.s.save() }
+
+// Restore restores the stack state.
+func (s VerifStack) Restore(i, l int) { s.s.restore(i, l) }
+
+// VerifScopeStack exposes the persistent scope stack.
+type VerifScopeStack struct{ s *scopeStack }
+
+// VerifNewScopeStack creates a scope stack.
+func VerifNewScopeStack() VerifScopeStack { return VerifScopeStack{newScopeStack()} }
+
+// Push pushes a scope identified by id.
+func (s VerifScopeStack) Push(id int) { s.s.push(scope{id: id}) }
+
+// Pop pops a scope and returns its id.
+func (s VerifScopeStack) Pop() int { return s.s.pop().id }
+
+// Empty reports emptiness.
+func (s VerifScopeStack) Empty() bool { return s.s.empty() }
+
+// Save saves the stack state.
+func (s VerifScopeStack) Save() (int, int) { return s.s.save() }
+
+// Restore restores the stack state.
+func (s VerifScopeStack) Restore(i, l int) { s.s.restore(i, l) }
